@@ -292,7 +292,10 @@ def dual_of(m: AMesh):
 
 
 def patch(nx, ny, lon0=-20.0, lat0=-15.0, dlon=8.0, dlat=7.0):
-    """partial quad lattice of nx × ny faces"""
+    """partial quad lattice of nx × ny faces (kept off the poles: a lattice running past 90 degrees would
+    contain self-intersecting faces)"""
+    lat0 = min(lat0, 86.0 - ny * dlat)
+    lat0 = max(lat0, -86.0)
     xyz = np.array([_ll(lon0 + i * dlon, lat0 + j * dlat) for j in range(ny + 1) for i in range(nx + 1)])
     faces = []
     for j in range(ny):
